@@ -225,4 +225,8 @@ RECIPES = [
     ("C19", "neutral", [], D, "    updata = signal.lfilter(fir, 1, updata1, axis=-1)\n    updata = updata[..., M:]\n", "    updata = signal.lfilter(fir, 1, updata1, axis=-1)[..., M:]\n",
      "resample: filter call and lag removal chained"),
     ("C19", "break", ["C19-R5"], D, "    newdata = olddata[index]\n", "    newdata = olddata[np.minimum(index + 1, len(told) - 1)]\n", "fixtime: the sample after the nearest one is returned"),
+    ("C19", "break", ["C19-R5"], D, "        if i > 0 and v - told[i - 1] <= told[i] - v:\n            index[0] = i - 1", "        if i > 0 and v - told[i - 1] < told[i] - v:\n            index[0] = i - 1",
+     "fixtime: numba variant, tie rule of the first new time only"),
+    ("C19", "break", ["C19-R5"], D, "            if i > 0 and v - told[i - 1] <= told[i] - v:\n                index[j] = i - 1", "            if i > 0 and v - told[i - 1] <= told[i] - v:\n                index[j] = i + 1",
+     "fixtime: numba variant steps forward instead of back"),
 ]
